@@ -4,6 +4,9 @@ import json, os
 V = os.path.dirname(os.path.dirname(os.path.abspath(__file__)))
 E_INPUT = "bounded-exhaustive enumeration of inputs over the real code against a reference model"
 CHECKS = {
+ "C01": dict(technique="explicit-state exploration of edit histories over the real incremental analysis (inductive single-step sweep from every fresh state, two-edit batches, BFS with the implementation state carried forward); differential oracle fresh analysis",
+   text="from fresh(t) for every text of the bounded families (character soups, token soups, generated programs) every edit of the family's alphabet is applied through AnalyzedSource::update and tokens, tree, symbol table and errors() are compared with AnalyzedSource::new(final text) after every step; exact known-finding membership by input hash, any other diverging input is a violation",
+   note="AnalyzedSource::new is the specification; histories that leave the bounded text set are not covered; known divergences of the pinned tree are listed exactly in known_findings/C01.hashes", ref="4/C01"),
  "C02": dict(technique="bounded-exhaustive enumeration of documents x requests x positions and of edit histories, executed on the real server loop (in process, tokio shim)",
    text="every document of the bounded families (token soups <=3/4 tokens, character soups <=3/4 chars incl. multi-byte, generated valid programs in 6 layouts, all single-token mutations of generated programs, nesting ladders <=32, edit histories) is opened in the unmodified LanguageServer::run(); all 13 request methods at every (line, UTF-16 column) incl. overshooting positions must be answered with exactly one well-formed result response in order, without panic or Err",
    note="in-process run() with in-memory stdio; a non-terminating case is reported by a watchdog as a violation (hang); process-level liveness belongs to C18", ref="4/C02"),
